@@ -1837,16 +1837,16 @@ Proof.
       (split; [rewrite (fuel_of_succ _ _ Hfr3); lia | exact (nat_pres_trans _ _ _ HP12 HP3)]).
 Qed.
 
-Lemma add_tree_ok fuel t det F p lang :
+Lemma add_tree_ok fuel t det F p lang new_tree :
   Inv t det F -> parent_ok (heap_of t) p = true -> (fuel_of t <= fuel)%nat ->
-  add_ok t det F (add_tree fuel t p lang).
+  add_ok t det F (add_tree fuel t p lang new_tree).
 Proof.
   intros HI Hp Hf. unfold add_tree.
-  destruct (add_new_inv fuel t det F p (DTree 0) HI Hp Hf) as (t1 & r & F1 & Hrun & HI1 & Hfr & Hr & HP1).
+  destruct (add_new_inv fuel t det F p (DTree 0 None) HI Hp Hf) as (t1 & r & F1 & Hrun & HI1 & Hfr & Hr & HP1).
   rewrite Hrun. cbn [bind]. destruct r as [n|].
   - destruct (Hr n eq_refl) as (_ & _ & Hd). destruct (Hd eq_refl) as (nn & Hn & _).
     rewrite (get_some _ _ _ Hn). cbn [bind].
-    destruct (set_data_inv t1 det F1 n nn (DTree lang) HI1 Hn eq_refl) as (F' & HI' & HP').
+    destruct (set_data_inv t1 det F1 n nn (DTree lang (Some new_tree)) HI1 Hn eq_refl) as (F' & HI' & HP').
     eexists _, (Some n), F'. split; [reflexivity|]. split; [exact HI'|]. split; [|exact (nat_pres_trans _ _ _ HP1 HP')].
     unfold fuel_of in *. cbn [fresh with_heap]. rewrite Hfr, N.add_1_r, Nnat.N2Nat.inj_succ. lia.
   - exists t1, None, F1. split; [reflexivity|]. split; [exact HI1|]. split; [rewrite (fuel_of_succ _ _ Hfr); lia | exact HP1].
@@ -1898,12 +1898,20 @@ Proof.
     destruct r; eexists _, _, F'; (split; [reflexivity|]); (split; [exact HI' | intros _; exact HP]). }
   assert (Hsame : forall b0, exists c' b F', TOk (mkC t det, false) = TOk (c', b) /\ Inv (ts c') (TreeGraph.det c') F' /\ (b0 = false -> nat_pres F F')).
   { intros b0. eexists _, _, F. split; [reflexivity|]. split; [exact HI | intros _; apply nat_pres_refl]. }
-  destruct o as [p tag ats | p name kvs text | p text | p | p lang | n k v | n | p n | n]; cbn [exec ts TreeGraph.det is_extract].
+  destruct o as [p tag ats | p name kvs text | p text | p | p lang ntr | d0 | n k v | n | p n | n]; cbn [exec ts TreeGraph.det is_extract].
   - destruct (parent_ok (heap_of t) p) eqn:Hp; [|apply Hsame]. apply Hadd. eapply add_elt_with_attrs_ok; eauto.
   - destruct (parent_ok (heap_of t) p) eqn:Hp; [|apply Hsame]. apply Hadd. eapply add_xml_full_ok; eauto.
   - destruct (parent_ok (heap_of t) p) eqn:Hp; [|apply Hsame]. apply Hadd. unfold add_text. eapply add_new_ok; eauto.
   - destruct (parent_ok (heap_of t) p) eqn:Hp; [|apply Hsame]. apply Hadd. unfold add_cdata. eapply add_new_ok; eauto.
   - destruct (parent_ok (heap_of t) p) eqn:Hp; [|apply Hsame]. apply Hadd. eapply add_tree_ok; eauto.
+  - (* tree == NULL: the node is created and destroyed again *)
+    pose proof (inv_fresh_free _ _ _ HI) as Hfree. destruct HI as (HL & Hroots & Hb).
+    cbn [alloc]. eexists _, _, F. split; [reflexivity|]. split; [|intros _; apply nat_pres_refl].
+    cbn [ts TreeGraph.det]. split; [|split].
+    + eapply Links_ext; [|exact HL]. intros i. cbn [heap_of with_heap]. unfold free_node, upd.
+      destruct (N.eqb_spec i (fresh t)) as [->|_]; [symmetry; exact Hfree | reflexivity].
+    + exact Hroots.
+    + intros i Hi. cbn [fresh with_heap]. specialize (Hb i Hi). lia.
   - (* attribute added to an element *)
     destruct (heap_of t n) as [nn|] eqn:Hn; [|apply Hsame]. destruct (n_data nn) eqn:Hd; try apply Hsame.
     unfold node_add_xml_attrs.
